@@ -9,6 +9,7 @@ var commands = map[string]func([]string){
 	"imports": cmdImports,
 	"cases":   cmdCases,
 	"heap":    cmdHeap,
+	"output":  cmdOutput,
 }
 
 func main() {
